@@ -10,7 +10,7 @@ from vlib.monitors import DependencyMonitor, DownstreamOfHaltMonitor
 PROPERTY = "C03"
 
 JOINS = [wl("first_of"), wl("quorum"), wl("or_split_join"), wl("multi_merge"), wl("fail_branch"),
-         wl("jump_cycle", 2, 1), wl("jump_forward_diamond", 1), wl("jump_side_fanin", 1), wl("jump_diamond_loop", 1),
+         wl("jump_cycle", 2, 1), wl("jump_forward_diamond", 1), wl("jump_side_fanin", 1), wl("jump_diamond_loop", 1), wl("jump_two_targets"),
          wl("join_fail", "DISCRIMINATOR", 0, True), wl("join_fail", "DISCRIMINATOR", 0, False),
          wl("join_fail", "N_OF_M", 1, True), wl("join_fail", "N_OF_M", 2, True), wl("join_fail", "MULTI_MERGE", 0, True),
          wl("join_fail", "OR", 0, True), wl("join_fail", "AND", 0, True)]
@@ -66,6 +66,11 @@ def jobs(tier, seed):
         for spec in JOINS:
             js.append({"label": f"{spec[0]}{spec[1]}|spurious2", "wl": spec, "budget": {"spurious": 2}})
             js.append({"label": f"{spec[0]}{spec[1]}|spurious1,noack1", "wl": spec, "budget": {"spurious": 1, "noack": 1}})
+    # an older bystander workflow in the same store uses the same ref_ids with another dependency shape
+    for kind, name, *args in (("nodeps", "chain3"), ("nodeps", "diamond"), ("chain", "diamond"), ("nodeps", "first_of"),
+                              ("nodeps", "quorum"), ("chain", "fan3")):
+        js.append({"label": f"{name}{list(args)}+bystander({kind})|spurious1", "wl": wl("with_decoy", kind, name, *args),
+                   "budget": {"spurious": 1}})
     return js
 
 
